@@ -96,7 +96,7 @@ package zipslicer
 //@
 //@ func (*Directory).WriteDirectory
 //@   property C17
-//@   requires weod != nil && 0 <= d.DirLoc && d.DirLoc <= 2305843009213693952
+//@   requires 0 <= d.DirLoc && d.DirLoc <= 2305843009213693952
 //@   before call (*bufio.Writer).Reset(_, w): assert @end_records_go_to_a_real_writer w != nil
 //@   before call encoding/binary.Write(_, _, v): assert @end_record_describes_the_directory istype(v, zipEndRecord) && !(minVersion == 45) ==> \
 //@        unbox(v, zipEndRecord).TotalCDCount == count && unbox(v, zipEndRecord).DiskCDCount == count && unbox(v, zipEndRecord).CDSize == size && \
@@ -108,5 +108,6 @@ package zipslicer
 //@
 //@ func (*Directory).GetOriginalDirectory
 //@   property C17
+//@   requires 0 <= d.DirLoc && d.DirLoc <= 2305843009213693952
 //@   before call encoding/binary.Write(_, _, v): assert @absent_zip64_records_are_not_emitted \
 //@        (istype(v, zip64End) ==> unbox(v, zip64End).Signature != 0) && (istype(v, zip64Loc) ==> unbox(v, zip64Loc).Signature != 0)
